@@ -30,6 +30,9 @@ pub fn cases(prop: &str, seed: u64, tier: &str) -> Vec<String> {
             let b = budget(tier, 120, 4000);
             for i in 0..b.mappings {
                 let m = gen_mapping(&mut r, &REP);
+                if !representable(m.as_bytes()) {
+                    continue;
+                }
                 push_mapping(&mut out, m.as_bytes());
                 let q = QuerySel { class: false, method: false, lines: true, params: false, all_lines: b.thorough && i % 4 == 0, both_files: b.thorough };
                 emit_queries(&mut out, m.as_bytes(), &mut r, q);
@@ -65,6 +68,9 @@ pub fn cases(prop: &str, seed: u64, tier: &str) -> Vec<String> {
             let b = budget(tier, 200, 6000);
             for _ in 0..b.mappings {
                 let m = gen_mapping(&mut r, &REP);
+                if !representable(m.as_bytes()) {
+                    continue;
+                }
                 push_mapping(&mut out, m.as_bytes());
                 let q = QuerySel { class: false, method: false, lines: false, params: true, all_lines: false, both_files: false };
                 emit_queries(&mut out, m.as_bytes(), &mut r, q);
@@ -76,11 +82,14 @@ pub fn cases(prop: &str, seed: u64, tier: &str) -> Vec<String> {
             for i in 0..b.mappings {
                 let o = GenOpts { dom: Dom::Representable, max_classes: if i % 10 == 0 { 150 } else { 8 }, noise: true };
                 let m = gen_mapping(&mut r, &o);
+                if !representable(m.as_bytes()) {
+                    continue;
+                }
                 push_mapping(&mut out, m.as_bytes());
                 let q = QuerySel { class: true, method: true, lines: false, params: false, all_lines: false, both_files: false };
                 emit_queries(&mut out, m.as_bytes(), &mut r, q);
                 // consistency clause: method lookup vs line based frames
-                if i % 4 == 0 {
+                if i % 4 == 1 {
                     let q = QuerySel { class: false, method: false, lines: true, params: false, all_lines: false, both_files: false };
                     emit_queries(&mut out, m.as_bytes(), &mut r, q);
                 }
